@@ -31,3 +31,8 @@ Definition jresultN (r : resultN) : J :=
 Definition run_perdictN (c : list arg * list datain * expin) : J :=
   let '(args, caches, x) := c in
   let r := perdictN (fouts (List.length caches)) args caches x in JL [jresultN (fst r); jtrace (snd r)].
+
+(* join(inputs, on, defaults) called directly: one row per key with the value every input contributes *)
+Definition run_pjoin (args : list arg) : J :=
+  if negb (any_table args None XAbsent) then JL [JS "pjoin"; JL [JL [jkey []; JL (map pv (row_args args []))]]]
+  else JL [JS "pjoin"; JL (map (fun k => JL [jkey k; JL (map pv (row_args args k))]) (result_keys args None XAbsent))].
